@@ -21,8 +21,8 @@ HARNESS = [vf.kit("internal/util/javascript", "javascript"),
 RUNJS = os.path.join(vf.VERIF, "harness", "jsscopes", "run.js")
 JVM = {"JAVA_TOOL_OPTIONS": "-XX:ParallelGCThreads=2 -Xmx3g -Xss64m"}
 ALLREF = '{"plain","tmpl","ntmpl","short","set","dot","optdot","key","method","getter","cls","regex","str"}'
-NSIM_Q, NSIM_T = 12, 150      # simulated traces (every complete successor of every state of a trace is a program)
-SIMCAP_Q, SIMCAP_T = 1500, 20000
+NSIM_Q, NSIM_T = 8, 150      # simulated traces (every complete successor of every state of a trace is a program)
+SIMCAP_Q, SIMCAP_T = 1000, 20000
 NAMES = {"NamesA": ["a"], "NamesAB": ["a", "b"], "NamesABC": ["a", "b", "c"]}
 
 
@@ -229,29 +229,29 @@ def _report_gen(chk, progs, where, bad):
 def _files_stage(chk, sd, fl, flb, node, timeout):
     keep = ("src", "short", "in", "out", "lexok", "same", "status")
     allf = [dict((k, r[k]) for k in keep if k in r) for r in fl + flb]
-    path = vf.write_ndjson(os.path.join(sd, "files.ndjson"), allf)
-    rep = _contract(chk, sd, "JsTokens_Trace", "files.ndjson", path, "token integrity of the shipped scripts (Minify and asset handler)", timeout)
-    if int(rep["n"]) != len(allf):
-        raise vf.NoVerdict("token contract judged %s of %d records" % (rep["n"], len(allf)))
-    for b in rep["bad"] if isinstance(rep["bad"], list) else []:
-        r = allf[b["idx"] - 1]
-        lvl = "served by the asset handler" if "status" in r else "minified"
-        chk.violation(b["key"], "shipped %s %s with shortenNames=%s breaks token integrity (%s)" % (r["src"], lvl, r["short"], b["key"]),
-                      {"file": r["src"], "short": r["short"], "served": "status" in r})
-    # self-test of the token contract: one identifier after a dot renamed, one token dropped
+    # self-test of the token contract (appended to the same run): one identifier after a dot renamed, one token dropped
     r0 = dict((k, fl[1][k]) for k in ("src", "short", "in", "out", "lexok", "same"))
     outs = [dict(t) for t in r0["out"]]
     k = next((i for i in range(1, len(outs)) if outs[i]["k"] == "id" and outs[i - 1]["t"] == "."), None)
     if k is None:
         raise vf.NoVerdict("token-contract self-test: no property access in " + r0["src"])
     outs[k]["t"] = outs[k]["t"] + "_zz"
-    r1 = dict(r0, out=outs, src="selftest-prop")
-    r2 = dict(r0, out=r0["out"][:-1], src="selftest-drop")
-    sp = vf.write_ndjson(os.path.join(sd, "files-self.ndjson"), [r1, r2])
-    rs = _contract(chk, sd, "JsTokens_Trace", "files.ndjson", sp, None, timeout)
-    got = sorted(b["key"] for b in rs["bad"]) if isinstance(rs["bad"], list) else []
+    selfrecs = [dict(r0, out=outs, src="selftest-prop"), dict(r0, out=r0["out"][:-1], src="selftest-drop")]
+    path = vf.write_ndjson(os.path.join(sd, "files.ndjson"), allf + selfrecs)
+    rep = _contract(chk, sd, "JsTokens_Trace", "files.ndjson", path, "token integrity of the shipped scripts (Minify and asset handler)", timeout)
+    if int(rep["n"]) != len(allf) + 2:
+        raise vf.NoVerdict("token contract judged %s of %d records" % (rep["n"], len(allf) + 2))
+    bl = rep["bad"] if isinstance(rep["bad"], list) else []
+    got = sorted(b["key"] for b in bl if b["idx"] > len(allf))
     if not (any("property-renamed/selftest-prop" in g for g in got) and any("token-skeleton" in g and "selftest-drop" in g for g in got)):
         raise vf.NoVerdict("token-contract self-test failed: %s" % got)
+    for b in bl:
+        if b["idx"] > len(allf):
+            continue
+        r = allf[b["idx"] - 1]
+        lvl = "served by the asset handler" if "status" in r else "minified"
+        chk.violation(b["key"], "shipped %s %s with shortenNames=%s breaks token integrity (%s)" % (r["src"], lvl, r["short"], b["key"]),
+                      {"file": r["src"], "short": r["short"], "served": "status" in r})
     parsed = 0
     if node:
         for r in fl:
@@ -371,6 +371,9 @@ def run():
                                      "asis", "NoGlobalRenamed NoStaleReference NoPropertyRenamed NoFileScopeRenamed"), dict(extra=["-continue"])),
         }
 
+        if not thorough:        # the quick tier leaves the default-value table and the positive control to the thorough tier
+            del jobs["dflt"], jobs["scoped"]
+
         def one(item):
             name, (_names, cfg, kw) = item
             kw = dict(kw)
@@ -387,6 +390,8 @@ def run():
                 "dflt": "MC: every program of up to 4 items over {a,b}: function declaration / expression / arrow whose parameter defaults to the other name",
                 "scoped": "MC: the binding-based renamer satisfies the contract"}
         for nm, w in what.items():
+            if nm not in res:
+                continue
             vf.tlc_ok(res[nm], w)
             chk.add_tlc(res[nm], w)
         vf.tlc_ok(res["sim"], "simulation over the full alphabet")
@@ -405,6 +410,8 @@ def run():
         rnd = random.Random(vf.SEED)
         progs, seen = [], set()
         for nm in ("core", "forms", "dflt", "sim"):
+            if nm not in res:
+                continue
             names = NAMES[jobs[nm][0]]
             rs = res[nm].records
             if nm == "sim":     # a seeded sample of the simulated programs, the longest first
